@@ -13,33 +13,42 @@ open Hub.SDK Hub.Model
 open Hub.Generated (AmountForBytes GetProportionOfCoin Gigabyte)
 open Hub.Props.C16 (chargeSpec shareSpec)
 
-private theorem ceil_scale' (x : Nat) : (x * 10 ^ 9 + (10 ^ 18 - 1)) / 10 ^ 18 = (x + (10 ^ 9 - 1)) / 10 ^ 9 := by
-  omega
+private theorem mod_eq_ok_nat {a b : Nat} {r : Int} (h : SInt.mod (a : Int) (b : Int) = .ok r) : r = ((a % b : Nat) : Int) := by
+  unfold SInt.mod at h
+  split at h
+  · simp [gopanic] at h
+  · simp only [pure, Except.pure, Except.ok.injEq] at h
+    rw [← h]; rfl
+
+private theorem quo_eq_ok_nat {a b : Nat} {r : Int} (h : SInt.quo (a : Int) (b : Int) = .ok r) : r = ((a / b : Nat) : Int) := by
+  unfold SInt.quo at h
+  split at h
+  · simp [gopanic] at h
+  · simp only [pure, Except.pure, Except.ok.injEq] at h
+    rw [← h]; exact (Int.ofNat_tdiv a b).symm
 
 /-- Whenever `AmountForBytes` returns, it returns `⌈p·b/10^9⌉` (non-negative arguments). -/
 theorem afb_ok_exact {p b : Nat} {r : Int} (h : AmountForBytes (p : Int) (b : Int) = .ok r) :
     r = ((chargeSpec p b : Nat) : Int) := by
   have hG : Gigabyte = ((10 ^ 9 : Nat) : Int) := by unfold Gigabyte Hub.Generated.Megabyte Hub.Generated.Kilobyte; norm_num
   unfold AmountForBytes at h
-  rw [hG, Dec.ofInt_natCast, Dec.ofInt_natCast] at h
+  rw [hG] at h
   simp only [bind_eq_ok] at h
-  obtain ⟨bp, h1, t1, h2, t2, h3, h4⟩ := h
-  have e1 := (Dec.quoInt_eq_ok_nat h1).2
-  subst e1
-  have e2 := Dec.mul_eq_ok_nat h2
-  subst e2
-  have e3 := Dec.ceil_eq_ok_nat h3
-  subst e3
-  have e4 := Dec.truncateInt_eq_ok_nat h4
-  rw [e4]
-  have a1 : p * 10 ^ 18 / 10 ^ 9 = p * 10 ^ 9 := by omega
-  have a2 : b * 10 ^ 18 * (p * 10 ^ 9) = (p * b * 10 ^ 9) * 10 ^ 18 := by ring
-  rw [a1, a2, Dec.chopRoundNat_mul]
-  have a3 : (p * b * 10 ^ 9 + (10 ^ 18 - 1)) / 10 ^ 18 * 10 ^ 18 / 10 ^ 18 = (p * b * 10 ^ 9 + (10 ^ 18 - 1)) / 10 ^ 18 :=
-    Nat.mul_div_cancel _ (by norm_num)
-  rw [a3]
-  unfold chargeSpec
-  rw [ceil_scale']
+  obtain ⟨t1, h1, whole, h2, t2, h3, part, h4, t3, h5, t4, h6, t5, h7, h8⟩ := h
+  have e1 := quo_eq_ok_nat h1
+  have e2 := SInt.mul_eq_ok h2
+  have e3 := mod_eq_ok_nat h3
+  have e4 := SInt.mul_eq_ok h4
+  have e5 := SInt.add_eq_ok h5
+  have e6 := SInt.sub_eq_ok h6
+  have e8 := SInt.add_eq_ok h8
+  have hpos : 1 ≤ p % 10 ^ 9 * b + 10 ^ 9 := Nat.le_trans (by norm_num) (Nat.le_add_left _ _)
+  have e6' : t4 = ((p % 10 ^ 9 * b + 10 ^ 9 - 1 : Nat) : Int) := by
+    rw [e6, e5, e4, e3]; push_cast [Nat.cast_sub hpos]; ring
+  rw [e6'] at h7
+  have e7 := quo_eq_ok_nat h7
+  rw [e8, e7, e2, e1, ← Hub.Props.C16.chargeSpec_split_price p b]
+  push_cast; ring
 
 /-- A whole number of gigabytes costs exactly price × gigabytes. -/
 theorem charge_whole_gigabytes (p gb : Nat) : chargeSpec p (10 ^ 9 * gb) = p * gb := by
